@@ -150,15 +150,30 @@ class C07(Prop):
             return None
         specs = pc.ctx_specs(case["sigs"])
         init_spec = pc.initial_spec(case["initial"])
+        body0 = pc.body_of(case["argv"])
         if obs.get("err") == "ValueError":
-            # an int-kind value argument exists: the only source of ValueError in the model
-            for c in specs + ([init_spec] if init_spec else []):
-                for a in c["args"]:
-                    if a["kind"] == "KInt" and not a["incrementable"]:
-                        return "F-C07a"
+            # mechanism: int() applied to a non-integer text.  Needs an int-kind value argument
+            # and some text derived from a token (whole token, part after '=', glued rest)
+            # that is not [+-]?[0-9]+
+            import re
+            has_int = any(a["kind"] == "KInt" and not a["incrementable"]
+                          for c in specs + ([init_spec] if init_spec else []) for a in c["args"])
+            cands = []
+            for t in body0:
+                cands += [t, t.partition("=")[2] if "=" in t else t, t[2:] if t.startswith("-") else t]
+            if has_int and any(not re.fullmatch(r"[+-]?[0-9]+", x) for x in cands):
+                return "F-C07a"
             return None
         if obs.get("err") == "AttributeError" and case["initial"] == "none":
-            return "F-C07b"
+            # mechanism: a short-flag cluster is split while machine.context is None
+            def cluster_like(t):
+                # follow the '=' splits: the pushed value is examined as a token of its own
+                while t.startswith("-") and "=" in t:
+                    t = t.partition("=")[2]
+                return t.startswith("-") and not t.startswith("--") and len(t) > 2
+            if any(cluster_like(t) for t in body0):
+                return "F-C07b"
+            return None
         if "ok" in obs:
             o = obs["ok"]
             body = pc.body_of(case["argv"])
